@@ -6,8 +6,9 @@ streams against the etcd / native handlers) are meant to be added as further fun
 Metrics part:
   proof      KB.Props.C20Metrics (+ KB.Props.C20): `metric_labels_consistent`, `metric_names_valid`,
              `metric_sites_resolved`, `metric_dynamic_label_sites` by `decide` over the table regenerated from
-             /repo by kbextract (every Emit* call site), the generic `consistent_no_panic`, the partial
-             `metrics_never_panic_partial` and the witness `metrics_panic_witness` of the full statement's negation.
+             /repo by kbextract (every Emit* call site), `metric_sanitised_label_sites`, the generic
+             `consistent_no_panic`, and `metrics_never_panic` (arbitrary client data; one explicit hypothesis
+             `LeaderAddressValid` for the seven operator-data sites) / `metrics_never_panic_request_paths`.
   tie        (1) every site of the table is replayed on the REAL client (`kbharness -suite metrics`), once per
              rotation of each group of sites sharing a formatted name (so every site is the first emitter of
              its name once, and every site follows every other first emitter), one fresh process per rotation
@@ -15,9 +16,11 @@ Metrics part:
              (2) the Lean model of the client (`KB.Metrics.emit`, executed with `#eval`) and the real client
              are run on the same table replays and on seeded random emission sequences (colliding names,
              kinds, label sets, invalid identifiers, invalid UTF-8 values) and compared up to the first panic.
-             (3) every label whose VALUE is run-time data is replayed with a value that is not valid UTF-8; for
-             the request-controlled one (the key of a Watch) the end-to-end request is executed on a real
-             backend: the node process dies.
+             (3) every label whose VALUE is unsanitised run-time data is replayed with a value that is not valid
+             UTF-8 (client and model panic); such a label must be the leader address (operator data), anything else
+             is a failing input. The request-controlled label (the key of a Watch, sanitised since 9c4361e) is
+             exercised end to end on a real backend with keys that are not valid UTF-8: the node must survive
+             (before the fix the process died).
 """
 import os
 import re
@@ -26,16 +29,17 @@ import subprocess
 from .. import core
 from ..gen import rng_for
 
-EXTRA_PROP_MODULES = [("KB.Props.C20Metrics", "KB.C20Metrics")]
+EXTRA_PROP_MODULES = [("KB.Props.C20Metrics", "KB.C20Metrics"), ("KB.Props.C20Requests", "KB.C20Requests")]
 
 TABLE = os.path.join(core.LEAN, "KB", "Generated", "MetricSites.lean")
 SITE_RE = re.compile(
     r'\{ file := "(?P<file>[^"]*)", line := (?P<line>\d+), kind := \.(?P<kind>\w+), name := b!"(?P<name>[^"]*)", '
-    r'labelNames := \[(?P<labels>[^\]]*)\], dynamicLabels := \[(?P<dyn>[^\]]*)\], spreads := (?P<spreads>true|false), '
+    r'labelNames := \[(?P<labels>[^\]]*)\], dynamicLabels := \[(?P<dyn>[^\]]*)\], sanitisedLabels := \[(?P<san>[^\]]*)\], '
+    r'spreads := (?P<spreads>true|false), '
     r'via := "(?P<via>(?:[^"\\]|\\.)*)", dynamicValues := "(?P<dynv>(?:[^"\\]|\\.)*)" \}')
 
-# label values that are run-time data. REQUEST_CONTROLLED ones are client bytes (a defect if the client
-# panics on them); ASSUMED ones come from the operator's configuration / the election record.
+# label values that are run-time data. REQUEST_CONTROLLED ones are client bytes (a defect if they reach the Prometheus
+# client unsanitised); ASSUMED ones come from the operator's configuration / the election record.
 REQUEST_CONTROLLED = {("watcherhub.events_chan.closed", "prefix")}
 ASSUMED_VALID = {"addr", "leader"}
 
@@ -56,7 +60,7 @@ def parse_table():
             if m:
                 d = m.groupdict()
                 sites.append({"file": d["file"], "line": int(d["line"]), "kind": d["kind"], "name": d["name"],
-                              "labels": _names(d["labels"]), "dyn": _names(d["dyn"]), "via": d["via"]})
+                              "labels": _names(d["labels"]), "dyn": _names(d["dyn"]), "san": _names(d["san"]), "via": d["via"]})
     gl = re.search(r"def metricGlobalLabels : List \(List Name\) := \[(.*)\]\n", text)
     globals_ = [_names(x) for x in re.findall(r"\[([^\[\]]*)\]", gl.group(1))] if gl else []
     unresolved = re.search(r"def metricSitesUnresolved : List String := \[(.*)\]\n", text)
@@ -245,44 +249,53 @@ def check_metrics(rep, tier, seed):
 
     # (3) run-time label values
     dyn = [(s, l) for s in sites for l in s["dyn"]]
+    san = [(s, l) for s in sites for l in s["san"]]
     cov["dynamic_label_sites"] = ["%s:%d %s{%s}" % (s["file"], s["line"], s["name"], l) for s, l in dyn]
+    cov["sanitised_label_sites"] = ["%s:%d %s{%s}" % (s["file"], s["line"], s["name"], l) for s, l in san]
+    # end to end, whatever the table says: a Watch whose key is not valid UTF-8 (client bytes reach the label
+    # `prefix` of watcherhub.events_chan.closed when the watch ends); control: a well-formed key
+    ok_lines = ["cfg", "watchend 2f722f61"]
+    ok_out = core.run_impl("metrics", ok_lines, timeout=60)
+    if ok_out != ["cfg ok", "watchend ok"]:
+        core.handle_diff(rep, "C20", "metrics-watchend", _case(ok_lines, ok_out, ["cfg ok", "watchend ok"]))
+        return True
+    for key in ["ff2f61", "2f72c328", "80"]:
+        bad_lines = ["cfg", "watchend " + key]
+        bad_out = core.run_impl("metrics", bad_lines, timeout=60)
+        c2 = _case(bad_lines, bad_out, ["cfg ok", "watchend ok"])
+        rep.count_case(c2)
+        cov.setdefault("watch_with_non_utf8_key", {})[key] = bad_out[-1][:200] if bad_out else "<no output>"
+        if bad_out != ["cfg ok", "watchend ok"]:
+            desc = ("Watch(key=0x%s) then cancel: the backend's processEvents goroutine emits watcherhub.events_chan.closed "
+                    "with label prefix derived from the raw key; the Prometheus client panics on a label value that is not "
+                    "valid UTF-8 and the node process dies: %s" % (key, (bad_out[-1] if bad_out else "")[:200]))
+            if core.handle_oracle_hit(rep, "C20", "metric-label-value", c2, desc,
+                                      "metric-label-value-not-utf8:watcherhub.events_chan.closed:prefix"):
+                return True
+            break
     for s, l in dyn:
+        # the client (and the model) panic on a value that is not valid UTF-8: tie of that part of the model
         lines, out = impl_outcomes(glob, [(s["kind"], s["name"], s["labels"], l)])
         c = _case(lines, out, ["cfg ok", "emit %s PANIC" % s["name"]])
         rep.count_case(c)
         if out[1:] != ["emit %s PANIC" % s["name"]]:
             core.handle_diff(rep, "C20", "metrics-badvalue", c)
             return True
-        if (s["name"], l) in REQUEST_CONTROLLED:
-            # end to end: a Watch whose key is not valid UTF-8; control: a well-formed key
-            ok_lines = ["cfg", "watchend 2f722f61"]
-            ok_out = core.run_impl("metrics", ok_lines, timeout=60)
-            bad_lines = ["cfg", "watchend ff2f61"]
-            bad_out = core.run_impl("metrics", bad_lines, timeout=60)
-            c2 = _case(bad_lines, bad_out, ["cfg ok", "watchend ok"])
-            rep.count_case(c2)
-            if ok_out != ["cfg ok", "watchend ok"]:
-                core.handle_diff(rep, "C20", "metrics-watchend", _case(ok_lines, ok_out, ["cfg ok", "watchend ok"]))
-                return True
-            crashed = any(o.startswith("CRASHED") for o in bad_out)
-            cov["watch_with_non_utf8_key"] = bad_out[-1][:300]
-            if crashed or bad_out != ["cfg ok", "watchend ok"]:
-                desc = ("Watch(key=0xff2f61) then cancel: the backend's processEvents goroutine emits "
-                        "%s with label %s = the raw key; the Prometheus client panics on a label value that is not "
-                        "valid UTF-8 and the node process dies: %s" % (s["name"], l, bad_out[-1][:200]))
-                if core.handle_oracle_hit(rep, "C20", "metric-label-value", c2, desc,
-                                          "metric-label-value-not-utf8:%s:%s" % (s["name"], l)):
-                    return True
-        elif l in ASSUMED_VALID:
-            a = "metric label %s{%s} carries the leader address from the election record (operator configuration): assumed valid UTF-8" % (s["name"], l)
+        if l in ASSUMED_VALID and (s["name"], l) not in REQUEST_CONTROLLED:
+            a = ("metric label %s{%s} carries the leader address from the election record (written only by the peers from "
+                 "their Identity configuration; not writable through either API): assumed valid UTF-8 — hypothesis "
+                 "LeaderAddressValid of KB.C20Metrics.metrics_never_panic" % (s["name"], l))
             if a not in rep.assumptions:
                 rep.assumptions.append(a)
         else:
-            desc = "label %s of %s (%s:%d) carries unclassified run-time data and the client panics on invalid UTF-8" % (
-                l, s["name"], s["file"], s["line"])
+            desc = ("label %s of %s (%s:%d) passes unsanitised run-time data as a label value and the client panics on "
+                    "invalid UTF-8" % (l, s["name"], s["file"], s["line"]))
             if core.handle_oracle_hit(rep, "C20", "metric-label-value", c, desc,
                                       "metric-label-value-not-utf8:%s:%s" % (s["name"], l)):
                 return True
+    if ("watcherhub.events_chan.closed", "prefix") not in {(s["name"], l) for s, l in san}:
+        # the extractor no longer sees the sanitiser (the Lean theorem metric_sanitised_label_sites fails as well)
+        cov["watch_prefix_label_sanitised_in_table"] = False
     rep.assumptions += [
         "the program's metric emissions are exactly the Emit* call sites of /repo/pkg and /repo/cmd (non-test); "
         "prometheus.emitMetrics is unreferenced by non-test code (checked by the extractor on every run)",
@@ -292,8 +305,115 @@ def check_metrics(rep, tier, seed):
     return False
 
 
+# ------------------------------------------------------------------ request part: hostile requests + probes
+
+HOSTILE_REVS = [0, 1, 999, 2 ** 31, 2 ** 62, 2 ** 63, 2 ** 63 + 5, 2 ** 64 - 1, 2 ** 64 - 7]
+
+
+def hostile_key(r):
+    x = r.random()
+    if x < 0.2:
+        return b""
+    if x < 0.4:
+        return bytes(r.randint(0, 255) for _ in range(r.randint(1, 12)))            # any bytes, incl. non-UTF-8
+    if x < 0.55:
+        return b"\x57\xfb\x80\x8b" + bytes(r.randint(0, 255) for _ in range(r.randint(0, 10)))  # magic-prefixed
+    if x < 0.7:
+        return PREFIX_B + b"/h" + bytes([r.choice([0, 1, 0x23, 0x24, 0xff])]) + b"x"  # bytes at / below the split byte
+    if x < 0.8:
+        return b"k" * r.choice([200, 2000])
+    return PREFIX_B + b"/ok" + bytes([r.randint(0x61, 0x7a)])
+
+
+def gen_request_case(seed, i, engine):
+    from ..gen import hx, rng_for
+    from .. import hist
+    r = rng_for(seed, "c20r/%d" % i)
+    lines = [hist.cfg_line(engine)]
+    probes = 0
+    for _ in range(r.randint(6, 16)):
+        k = hostile_key(r)
+        x = r.random()
+        rev = r.choice(HOSTILE_REVS)
+        if x < 0.2:
+            lines.append("create %s %s" % (hx(k), hx(r.choice([b"v", b"tombstone", bytes([0xff, 0xfe])]))))
+        elif x < 0.4:
+            lines.append("update %s %s %d" % (hx(k), hx(b"u"), rev))
+        elif x < 0.55:
+            lines.append("delete %s %d" % (hx(k), rev))
+        elif x < 0.7:
+            lines.append("get %s %d" % (hx(k), rev))
+        elif x < 0.85:
+            k2 = hostile_key(r)
+            lines.append("list %s %s %d %d" % (hx(k), hx(k2), rev, r.choice([0, 1, 2 ** 31, 2 ** 62])))
+        elif x < 0.93:
+            lines.append("count %s %s" % (hx(k), hx(hostile_key(r))))
+        else:
+            lines.append("compact %d" % rev)
+        # probe: the node keeps serving — a fresh well-formed key can be created and read back
+        probes += 1
+        pk = PREFIX_B + b"/probe/" + (b"%04d" % probes)
+        lines += ["rev", "create %s %s" % (hx(pk), hx(b"p")), "rev", "get %s 0" % hx(pk)]
+    return core.Case("backend", lines, {"engine": engine})
+
+
+PREFIX_B = b"/r"
+
+
+def split_byte_witness(engine):
+    """known finding: a key that contains the split byte followed by 8 bytes shadows the point reads of the key
+    before the split byte (KB.C20Requests.probe_after_anything_counterexample)"""
+    from ..gen import hx
+    from .. import hist
+    victim = PREFIX_B + b"/victim"
+    hostile = victim + b"$" + b"\xff" * 7 + b"\xfe"
+    lines = [hist.cfg_line(engine), "create %s %s" % (hx(hostile), hx(b"h")), "rev", "create %s %s" % (hx(victim), hx(b"v")), "rev",
+             "get %s 0" % hx(victim)]
+    return core.Case("backend", lines, {"engine": engine, "witness": "split-byte"})
+
+
+def request_oracle(case):
+    from .. import hist
+    if case.impl and (case.impl[-1].startswith("CRASHED") or case.impl[-1] == "TIMEOUT"):
+        return ("the node process died / hung: %s" % case.impl[-1][:300], "process-died")
+    for i, (line, out) in enumerate(zip(case.lines, case.impl)):
+        if " PANIC " in out or out.endswith(" PANIC"):
+            return ("line %d: %s panicked: %s" % (i + 1, line, out[:200]), "handler-panic")
+    last_create = None
+    for i, (line, out) in enumerate(zip(case.lines, case.impl)):
+        t, o = line.split(), out.split()
+        if t[0] == "create" and (b"/probe/" in hist.unhx(t[1]) or case.meta.get("witness")):
+            last_create = (t[1], out)
+            if b"/probe/" in hist.unhx(t[1]) and o[1] != "ok":
+                return ("line %d: after a hostile request a fresh key cannot be created: %s -> %s" % (i + 1, line, out), "probe-create-fails")
+        if t[0] == "get" and last_create and t[1] == last_create[0] and last_create[1].split()[1] == "ok":
+            if len(o) < 3 or o[2] == "-":
+                sig = "key-with-split-byte-shadows-reads" if case.meta.get("witness") else "probe-read-fails"
+                return ("line %d: a key that was just created (%s) reads as absent" % (i + 1, last_create[0]), sig)
+    return None
+
+
+def check_requests(rep, tier, seed):
+    engines = ["memkv", "badger", "tikv"]
+    n = 30 if tier == "quick" else 900
+    cases = [gen_request_case(seed, i, engines[i % 3]) for i in range(n)] + [split_byte_witness(e) for e in engines]
+    core.run_cases(cases)
+    for c in cases:
+        rep.count_case(c)
+        hit = request_oracle(c)
+        if hit:
+            if core.handle_oracle_hit(rep, "C20", hit[1], c, hit[0], hit[1]):
+                return True
+            continue
+        if c.diff() is not None:
+            core.handle_diff(rep, "C20", "correspondence-requests", c)
+            return True
+    rep.assumptions += ["request part: hostile keys / revisions / limits through the native backend API on three engines, each followed by a "
+                        "create+read probe of a fresh well-formed key; the etcd-API casts are covered by KB.C20Requests.cast_* and the C16 suite"]
+    return False
+
+
 def check(rep, tier, seed):
     if check_metrics(rep, tier, seed):
         return True
-    # further request-level checks of C20 (malformed request streams, wedge probes) are added here
-    return False
+    return check_requests(rep, tier, seed)
